@@ -251,3 +251,157 @@ func sortStrings(a []string) {
 		}
 	}
 }
+
+// idleStdio: one lifetime of a Stdio-coupled crew in which no message arrives: start from
+// the state file, run, stop (which writes the state file).  Returns the file written.
+func idleStdio(rec *fw.Rec, prefix string, replay interface{}, dir, tag, stateIn string) (stateFile string, ok bool) {
+	stateOut := filepath.Join(dir, tag+"-state.json")
+	io := sio.NewStdio(false)
+	pr, pw, perr := os.Pipe() // an input that stays open and silent
+	if perr != nil {
+		rec.Inconclusive("pipe: " + perr.Error())
+		return "", false
+	}
+	defer pr.Close()
+	defer pw.Close()
+	io.In = pr
+	io.Out = &lockedBuf{}
+	io.StateOutputFilename = stateOut
+	io.StateInputFilename = stateIn
+	io.WriteStatePerMsg = true
+	ctx, cancel := context.WithCancel(context.Background())
+	defer cancel()
+	var c *sio.Crew
+	failed := ""
+	if rec.Guard(prefix+":stdio:idle", replay, func() {
+		var err error
+		c, err = sio.NewCrew(ctx, &sio.CrewConf{Ctl: &core.Control{Limit: 50}}, io)
+		if err != nil {
+			failed = "NewCrew: " + err.Error()
+			return
+		}
+		if err = io.Start(ctx); err != nil {
+			failed = "Start: " + err.Error()
+			return
+		}
+		ms, err := io.Read(ctx)
+		if err != nil {
+			failed = "Read: " + err.Error()
+			return
+		}
+		for mid, m := range ms {
+			if err := c.SetMachine(ctx, mid, m.SpecSource, m.State); err != nil {
+				failed = "boot SetMachine " + mid + ": " + err.Error()
+				return
+			}
+		}
+	}) {
+		return "", false
+	}
+	if failed != "" {
+		rec.Violation(prefix+":stdio:restart-fails", "a Stdio crew cannot be started from the state file: "+failed, replay)
+		return "", false
+	}
+	loopDone := make(chan struct{})
+	go func() {
+		defer close(loopDone)
+		c.Loop(ctx)
+	}()
+	time.Sleep(15 * time.Millisecond)
+	pw.Write([]byte("quit\n")) // what the user of siostd types to end a session
+	select {
+	case <-io.InputEOF:
+	case <-time.After(20 * time.Second):
+		rec.Inconclusive("idle Stdio crew did not react to 'quit' within 20 s")
+		return "", false
+	}
+	cancel()
+	stopped := make(chan struct{})
+	go func() {
+		<-loopDone
+		io.Stop(context.Background())
+		close(stopped)
+	}()
+	select {
+	case <-stopped:
+	case <-time.After(20 * time.Second):
+		rec.Inconclusive("idle Stdio crew did not shut down within 20 s of cancellation")
+		return "", false
+	}
+	b, rerr := os.ReadFile(stateOut)
+	if rerr != nil {
+		// nothing written: the host keeps the file it started from
+		b, rerr = os.ReadFile(stateIn)
+		if rerr != nil {
+			rec.Inconclusive("no state file: " + rerr.Error())
+			return "", false
+		}
+	}
+	return string(b), true
+}
+
+// PersistReload: persist - reload - persist - reload without a message in between, then
+// carry on: a host may stop and start as often as it likes at a message boundary.  The
+// violations are reported under the given prefix (C15 and C09 both claim this).
+func PersistReload(cfg fw.Config, rec *fw.Rec, idx int, prefix string) {
+	r := cfg.Rng("persist-reload", idx)
+	var h []op
+	for _, o := range genHistory(r, 200000+idx) {
+		if o.Via == "direct" || o.Kind == "replaceSpecBad" {
+			continue
+		}
+		h = append(h, o)
+	}
+	if len(h) < 4 {
+		return
+	}
+	var lines []string
+	for _, o := range h {
+		lines = append(lines, mustJSON(o.message()))
+	}
+	dir := filepath.Join(cfg.WorkDir, fmt.Sprintf("persist-%s-%d", prefix, idx))
+	os.MkdirAll(dir, 0755)
+	defer os.RemoveAll(dir)
+	replay := map[string]interface{}{"stdio_history": h, "lifetimes": "prefix | idle | idle | suffix"}
+	_, liveA, _, ok := runStdio(rec, replay, dir, "A", "", lines)
+	if !ok {
+		return
+	}
+	k := 1 + r.Intn(len(lines)-1)
+	_, _, file1, ok := runStdio(rec, replay, dir, "P1", "", lines[:k])
+	if !ok {
+		return
+	}
+	want, err := storeCanon(file1)
+	if err != nil {
+		rec.Inconclusive("state file unreadable: " + err.Error())
+		return
+	}
+	stateIn := filepath.Join(dir, "carry.json")
+	cur := file1
+	for life := 2; life <= 3; life++ {
+		os.WriteFile(stateIn, []byte(cur), 0644)
+		next, ok := idleStdio(rec, prefix, replay, dir, fmt.Sprintf("P%d", life), stateIn)
+		if !ok {
+			return
+		}
+		rec.Eval(1)
+		got, err := storeCanon(next)
+		if err != nil || stripSentinel(got) != stripSentinel(want) {
+			rec.Violation(prefix+":stdio:idle-lifetime-changes-the-state-file", fmt.Sprintf("lifetime %d (started from the state file, no message, stopped): the state file now holds %s, before it held %s (%v)", life, fw.Short(stripSentinel(got)), fw.Short(stripSentinel(want)), err), replay)
+			return
+		}
+		cur = next
+	}
+	os.WriteFile(stateIn, []byte(cur), 0644)
+	_, liveB, _, ok := runStdio(rec, replay, dir, "P4", stateIn, lines[k:])
+	if !ok {
+		return
+	}
+	rec.Eval(1)
+	if stripSentinel(liveB) != stripSentinel(liveA) {
+		rec.Violation(prefix+":stdio:restarted-crew-differs", fmt.Sprintf("stopped and started three times after %d of %d lines (twice without a message in between): the crew ends as %s, the uninterrupted one as %s", k, len(lines), fw.Short(stripSentinel(liveB)), fw.Short(stripSentinel(liveA))), replay)
+		return
+	}
+	rec.Bucket("stdio_idle_lifetimes_keep_the_state")
+}
